@@ -155,7 +155,8 @@ def decorate(reals, r, rng, naming, order, spelling):
 
 
 def name_of(v):
-    return v["rename"] if v["rename"] is not None else v["ident"]
+    """the variant's name: the rename string, else its identifier (a raw identifier r#type names `type`, as in std's derive(Debug))"""
+    return v["rename"] if v["rename"] is not None else (v["ident"][2:] if v["ident"].startswith("r#") else v["ident"])
 
 
 def string_probes(vs, rng, cap=48):
@@ -167,13 +168,13 @@ def string_probes(vs, rng, cap=48):
             probes += [s[1:], s[:-1], s + s[-1], s[0].swapcase() + s[1:], s[:-1] + ("x" if s[-1] != "x" else "y")]
         probes += [" " + s, s + " ", s + "\0", s.lower(), s.upper()]
     probes += [v["ident"] for v in vs if v["rename"] is not None]
-    probes += ["", "Zzz", "E", "None", "Some"]
+    probes += ["", "Zzz", "E", "None", "Some", "x" * 63, "y" * 64, "z" * 65, "long " * 40, "é" * 32]
     seen, out = set(), []
     for p in probes:
         if p not in seen:
             seen.add(p)
             out.append(p)
-    musts = [p for p in out if p in names or p == ""]
+    musts = [p for p in out if p in names or p == "" or len(p) >= 63]
     rest = [p for p in out if p not in musts]
     if len(musts) + len(rest) > cap:
         rng.shuffle(rest)
@@ -186,6 +187,7 @@ def string_probes(vs, rng, cap=48):
 # ------------------------------------------------------------------------------------------------
 # scripts
 
+NAME_CONSUMERS = [("min", 0), ("max", 0)]        # only the names iterator has ordered items
 CONSUMERS = [("fold", 0), ("rfold", 0), ("last", 0), ("count", 0), ("collect", 0), ("rev_collect", 0),
              ("for_each", 0), ("step_by", 2), ("skip", 1), ("take", 2), ("rev_skip", 1), ("step_by", 1), ("skip", 0)]
 
@@ -344,6 +346,12 @@ def make_script(vs, r, probes_model, rng, level="std", str_cap=48, pairs_cap=36,
             m = abs(reals.index(b) - reals.index(a)) + 1
             session(L, f"range:{model[a]}:{model[b]}:r{j}", f"range {bits(a)} {bits(b)}",
                     rand_path(rng.randint(3, 30), m), cons_for(j) if big and m > 5000 else (("count", 0) if big else CONSUMERS[j % len(CONSUMERS)]))
+    if n <= 64:
+        # the names iterator has ordered items (&str): min / max are by name, not by position
+        for cons in NAME_CONSUMERS:
+            session(L, f"names:c{cons[0]}", "names", [], cons, observe=False)
+        session(L, "names:mm1", "names", [("next", 0)], ("max", 0), observe=False)
+        session(L, "names:mm2", "names", [("next_back", 0)], ("min", 0), observe=False)
     return L
 
 
@@ -587,7 +595,7 @@ class Plan:
     def hostile_enum_names(self, names=("Some", "None", "Ok", "Err", "Option", "Result", "Iterator", "IntoIterator", "DoubleEndedIterator",
                                         "ExactSizeIterator", "FusedIterator", "From", "Into", "TryFrom", "FromStr", "Copy", "Clone", "Debug",
                                         "Display", "Formatter", "Error", "Sized", "Default", "Self_", "RangeInclusive", "MaybeUninit", "Map",
-                                        "Copied", "IntoIter", "Iter", "Vec", "String", "Box")):
+                                        "Copied", "IntoIter", "Iter", "Vec", "String", "Box", "r#async", "r#type")):
         rng = self.rng
         for r, reals in (("i8", [-3, 5, 6]), ("u16", [0, 1, 2])):
             gapless = runs_of(reals) == 1
@@ -742,6 +750,19 @@ class Plan:
                          if lab in ("match_nab", "table_table", "auto", "inline", "mixed1")]
                 self.add_group("C09", cases, "names_fixed")
 
+    # -- N2: raw identifiers (r#type names `type`)
+    def raw_idents(self):
+        rng = random.Random("raw-idents")
+        for r, reals in (("u8", [0, 1, 2, 3, 4]), ("i16", [-7, -6, 1, 5, 6])):
+            ids = ["r#type", "r#match", "Plain", "r#fn", "r#loop"]
+            vs = [{"ident": ids[i], "real": reals[i], "lit": str(reals[i]), "rename": ("fn" if ids[i] == "r#fn" else None)} for i in (2, 0, 4, 1, 3)]
+            p = prim.Proj(r)
+            probes = sorted({p.to_model(x + d) for x in reals for d in (-1, 0, 1) if prim.tmin(r) <= x + d <= prim.tmax(r)})
+            script = make_script(vs, r, probes, rng, level="light", str_cap=40, pairs_cap=6)
+            cases = [self.new_case(r, vs, cfg, script, f"rawid:{lab}") for lab, cfg in kappa_list(runs_of(reals) == 1)
+                     if lab in ("match_nab", "table_table", "auto", "inline", "mixed1", "mixed2")]
+            self.add_group("C09", cases, "names_fixed")
+
     # -- F2: discriminants that are far apart by (almost) a power of two: a span computed in a narrower type aliases
     #        them with a gapless enum  (span = count - 1  modulo 2^k)
     def alias_shapes(self):
@@ -763,6 +784,13 @@ class Plan:
                 b = max(prim.dmin(r), min(b, prim.dmax(r) - span))
                 reals = sorted({b, b + 1, b + 3, b + span - 2, b + span})
                 shapes.append((r, reals))
+        # pointer-sized reprs around 2^31 / 2^32 (a size guess of 4 bytes for usize / isize must not leak into behaviour)
+        for r, reals in (("usize", [(1 << 32) - 3, (1 << 32) - 2, (1 << 32) - 1]), ("usize", [(1 << 32) - 1, 1 << 32, (1 << 32) + 1]),
+                         ("usize", [0, 1, (1 << 32) - 1, 1 << 32, (1 << 32) + 5]), ("isize", [(1 << 31) - 3, (1 << 31) - 2, (1 << 31) - 1]),
+                         ("isize", [-(1 << 31), -(1 << 31) + 1, -(1 << 31) + 2]), ("isize", [-(1 << 31) - 1, -(1 << 31), 0, (1 << 31) - 1, 1 << 31]),
+                         ("usize", [(1 << 32) + 70_000, (1 << 32) + 70_001, (1 << 32) + 70_007]), ("u64", [(1 << 32) - 2, (1 << 32) - 1, 1 << 32]),
+                         ("i64", [(1 << 31) - 1, 1 << 31, (1 << 31) + 1])):
+            shapes.append((r, reals))
         for r, reals in shapes:
             vs = decorate(reals, r, rng, rng.choice(["ident", "renames"]), rng.choice(["asc", "shuffle"]), "dec")
             p = prim.Proj(r, True)
@@ -770,7 +798,7 @@ class Plan:
                             | {p.model_tmin(), p.model_tmax()})
             script = make_script(vs, r, probes, rng, level="light", str_cap=8, pow2=True)
             cases = []
-            for lab, cfg in kappa_list(False)[:3]:
+            for lab, cfg in kappa_list(runs_of(reals) == 1)[:3]:
                 c = self.new_case(r, vs, cfg, script, f"alias:{lab}")
                 c["pow2"] = True
                 cases.append(c)
@@ -869,6 +897,7 @@ def build_plan(tier, seed):
         pl.config_matrix(n_sparse=10)
         pl.sorted_cfgs(6)
         pl.names_fixed()
+        pl.raw_idents()
         pl.alias_shapes()
         pl.perms_reprs(30)
         pl.spellings(40)
@@ -890,6 +919,7 @@ def build_plan(tier, seed):
         pl.config_matrix(n_sparse=60)
         pl.sorted_cfgs(60)
         pl.names_fixed()
+        pl.raw_idents()
         pl.alias_shapes()
         pl.perms_reprs(150)
         pl.spellings(200)
